@@ -36,8 +36,15 @@ Section Tokens.
   (* GenerateLoginToken; t0 = time.Now().Unix() at issue *)
   Definition duration_of (d : Z) : Z := if (d =? 0)%Z then default_duration else d.
 
+  (* the expiry instant: now + duration in int64 arithmetic; a sum that would pass 2^63 - 1 (the
+     Go sum wraps to the distant past, seen as expiry < now for a positive duration) is replaced
+     by the largest instant (repair of F97). [t0] is a clock reading, so 0 <= t0 < 2^63. *)
+  Definition expiry_of (t0 d : Z) : Z :=
+    let e := (t0 + duration_of d)%Z in
+    if (2 ^ 63 <=? e)%Z then (2 ^ 63 - 1)%Z else e.
+
   Definition issue (key user : bytes) (t0 d : Z) : token :=
-    mint key user [gen_caveat; user_prefix ++ user; time_prefix ++ print_int (t0 + duration_of d)%Z].
+    mint key user [gen_caveat; user_prefix ++ user; time_prefix ++ print_int (expiry_of t0 d)].
 
   (* strconv.ParseInt(t, 10, 64) *)
   Definition parse_int64 (s : bytes) : option Z :=
@@ -93,6 +100,15 @@ Section Tokens.
   (* ValidateToken on a well-formed (deserialisable) macaroon *)
   Definition validate (key user : bytes) (now : Z) (t : token) : bool :=
     sig_eqb (tsig t) (chain key (tid t) (tcavs t)) && verify_caveats (tcavs t) user now.
+
+  (* ValidateToken with the server name: the macaroon's location - where GenerateLoginToken
+     records the issuing server, outside what the signature covers - must be the name of the
+     validating server when that is given (repair of F96) *)
+  Definition validate_at (srv loc key user : bytes) (now : Z) (t : token) : bool :=
+    match srv with
+    | [] => validate key user now t
+    | _ => bytes_eqb loc srv && validate key user now t
+    end.
 
   (* GetUserFromToken *)
   Definition user_of (t : token) : bytes := tid t.
